@@ -86,10 +86,21 @@ Fixpoint map_result {A B} (f : A -> result B) (l : list A) : result (list B) :=
   | x :: r => let! y := f x in let! ys := map_result f r in Ok (y :: ys)
   end.
 
+(* inside a loop, a forward jump past the end of the loop is an exit repeat, wherever it stands *)
+Definition exit_jumps (sts : list node) (rep_end : option Z) : list node :=
+  match rep_end with
+  | None => sts
+  | Some e => map (fun st => match st with
+                             | Stmt p (Jump _ addr) => if e <? addr then Stmt p (ExitRepeat p) else st
+                             | _ => st
+                             end) sts
+  end.
+
 Fixpoint condition_detect (fuel : nat) (sts : list node) (rep_end : option Z) : result (list node) :=
   match fuel with
   | O => OutOfFuel
   | S f =>
+    let sts := exit_jumps sts rep_end in
     (* loops nested at this level first (their bodies are separate lists) *)
     let! sts1 := map_result (fun st =>
         match st with
